@@ -10,6 +10,7 @@ THEOREMS = [
     "C19_blinded_findpath_route_ok", "C19_blinded_min_enforced", "C19_blinded_intro_paid",
     "C19_newroute_strip_dummy", "C19_unblind_backfill",
     "C19_blinded_max_refuted", "C19_blinded_aggregate_fee_refuted",
+    "C19_blinded_intro_only_limits_refuted", "C19_blinded_payload_estimate_refuted",
 ]
 MODULE = "LV.Route.Props"
 TARGETS = ["theories/Route/Props.vo", "theories/Route/Exec.vo",
@@ -37,7 +38,8 @@ SUBCHECK = {0: "route_valid rejects the returned route",
             9: "search replay: a domain guard, key monotonicity or pop order failed on an observed step",
             10: "blinded: ToRouteHints differs from the model (policy fields incl. HasMaxHTLC, order, NUMS dummy)",
             11: "blinded: target / final CLTV delta of the path set differ from the model",
-            12: "blinded: last-hop restriction not met by the search path"}
+            12: "blinded: last-hop restriction not met by the search path",
+            13: "blinded: lastHopPayloadSize / real final-hop payload differ from the size model"}
 
 
 def subcheck_name(i):
@@ -140,13 +142,27 @@ def bcase_term(c):
         zt(c["src"]), zt(c["totalamt"]), zt(c["totaltl"]),
         clist(["H %s %s %s %s" % (zt(h["chan"]), zt(h["to"]), zt(h["amt"]), zt(h["tl"]))
                for h in c["hops"]]))
-    return "CBlinded %s %s %s %s %s %s %s %s %s %s %s %s %s %s %s %s %s" % (
+    # encrypted-data lengths (opaque to the model): of the largest last hop of
+    # the path set (LargestLastHopPayloadPath) and of the recipient reached
+    ps = [dict(p, hops=p.get("hops") or []) for p in c["blinded"]]
+    single = [p for p in ps if not p["hops"]]
+    used = single[:1] if single else ps
+    enc_est = max(max(2, p["ctlens"][-1]) for p in used)
+    last = c["hops"][-1]["to"]
+    enc_real = enc_est
+    for p in used:
+        if (p["hops"] or [p["intro"]])[-1] == last:
+            enc_real = max(2, p["ctlens"][-1])
+            break
+    return "CBlinded %s %s %s %s %s %s %s %s %s %s %s %s %s %s %s %s %s %s %s %s %s %s" % (
         clist([edge_term(e) for e in pub]), env_term(c), restr_term(c),
         zt(c["amt"]), zt(c["src"]), zt(c["nums"]), pays,
         clist([edge_term(e) for e in add]), zt(c["dst"]),
         clist([edge_term(e) for e in c["path"]]), route, zlist(c["sizes"]),
         triples(c.get("bsizes") or []), zt(c["lastsize"]),
-        zlist(c["hopfees"]), zt(c["totfees"]), zt(c["recv"]))
+        zlist(c["hopfees"]), zt(c["totfees"]), zt(c["recv"]),
+        zt(enc_est), zt(enc_real), zt(c["total"]), zt(c.get("customlen", -1)),
+        cbool(bool(c.get("session"))))
 
 
 def blinded_search_view(c):
